@@ -13,8 +13,9 @@
 (*   - a missing (unreadable) week-end file is recreated: opening may then     *)
 (*     succeed or fail, but must do one of the two;                            *)
 (*   - any other failure while opening or rotating PARKS the counter file:     *)
-(*     error state, no mapping, for good; every later Add only changes the     *)
-(*     in-memory amount of its counter and no file;                            *)
+(*     error state, no mapping; every later Add only changes the in-memory     *)
+(*     amount of its counter and no file (whether a later open / rotate / read *)
+(*     may try again is left open);                                            *)
 (*   - a failure while the file grows for a new counter leaves that counter's  *)
 (*     amount in memory; every other counter keeps being persisted;            *)
 (*   - a failure while reading a counter back only fails that read;            *)
@@ -93,7 +94,7 @@ EffectsIn(s, plan, k) == {Effect(s, i) : i \in {i \in Effective(s, plan) : CallA
 StepState(s, plan, k, st) ==
     LET op == Rec[s].steps[k].op
         es == EffectsIn(s, plan, k)
-    IN  IF st.park = "yes" THEN st
+    IN  IF st.park = "yes" THEN (IF RotateLike(op) \/ op = "read" THEN [st EXCEPT !.park = "any"] ELSE st)
         ELSE IF RotateLike(op) \/ op = "read" THEN
              (IF "park" \in es THEN [st EXCEPT !.park = "yes", !.opened = TRUE]
               ELSE IF "recreate" \in es \/ "unknown" \in es THEN [st EXCEPT !.park = "any", !.opened = TRUE]
@@ -118,7 +119,7 @@ Fold(s, plan, k, st, acc) ==
     ELSE LET st2 == StepState(s, plan, k, st)
              fog == k >= FogFrom(s, plan)
              p   == IF Rec[s].family = "upload" THEN [park |-> "-", mode |-> "-"]
-                    ELSE IF fog THEN [park |-> IF st.park = "yes" THEN "yes" ELSE "any", mode |-> IF Rec[s].steps[k].op = "add" THEN (IF st.park = "yes" THEN "memory" ELSE "any") ELSE "-"]
+                    ELSE IF fog THEN [park |-> IF st2.park = "yes" THEN "yes" ELSE "any", mode |-> IF Rec[s].steps[k].op = "add" THEN (IF st.park = "yes" THEN "memory" ELSE "any") ELSE "-"]
                     ELSE [park |-> st2.park, mode |-> ModeOf(s, plan, k, st, st2)]
              st3 == IF fog /\ st2.park # "yes" THEN [st2 EXCEPT !.park = "any"] ELSE st2
          IN  Fold(s, plan, k + 1, st3, Append(acc, p))
@@ -137,7 +138,8 @@ Spec == Init /\ [][Next]_vars
 Steps == 1..NS(scn)
 TypeOK == /\ Len(pred) = NS(scn)
           /\ \A k \in Steps : pred[k].park \in {"no", "yes", "any", "-"} /\ pred[k].mode \in {"persist", "memory", "any", "-"}
-ParkSticky == \A k \in Steps, k2 \in Steps : (k < k2 /\ pred[k].park = "yes") => pred[k2].park = "yes"
+(* a parked file stays parked at least until the next open / rotate / read *)
+ParkSticky == \A k \in Steps : (k > 1 /\ pred[k - 1].park = "yes" /\ ~RotateLike(Rec[scn].steps[k].op) /\ Rec[scn].steps[k].op # "read") => pred[k].park = "yes"
 ParkedMeansMemory == \A k \in Steps : (Rec[scn].steps[k].op = "add" /\ k > 1 /\ pred[k - 1].park = "yes") => pred[k].mode = "memory"
 (* nothing is parked, and nothing stays in memory once the file is open, unless something failed *)
 FaultFreePersists ==
